@@ -75,6 +75,12 @@ def random_bytes(rng, n):
     return ["".join(rng.choice(alphabet) for _ in range(rng.randint(1, 60))) for _ in range(n)]
 
 
+def _paren_chain(levels, k):
+    e = "1"
+    for _ in range(levels):
+        e = "(" + e + ")" + "+1" * k
+    return e
+
 def nested(rng):
     d = rng.choice([50, 120, 200])
     return ["function main() -> void { echo(" + "(" * d + "1" + ")" * d + "); }",
@@ -85,6 +91,13 @@ def nested(rng):
             "class A { public constructor() -> A { } } " + "".join("class B%d extends %s { public constructor() -> B%d { super(); } } " % (i, "A" if i == 0 else "B%d" % (i - 1), i) for i in range(40)) + "function main() -> void { }",
             "class A extends B { public constructor() -> A { } } class B extends A { public constructor() -> B { } } class Leaf extends A { public constructor() -> Leaf { } } function main() -> void { }",
             "class Leaf extends A { public constructor() -> Leaf { } } class A extends B { public constructor() -> A { } } class B extends C { public constructor() -> B { } } class C extends A { public constructor() -> C { } } function main() -> void { }",
+            # inheritance cycles of every class kind (static classes may extend, too), with and without members that make the analyser walk the chain
+            "static class U extends U { public static function f() -> int { return 1; } } function main() -> void { }",
+            "static class A extends B { public static function f() -> int { return 1; } } static class B extends A { public static function g() -> int { return 2; } } function main() -> void { echo(A.f()); }",
+            "static class P extends Q { public static int n = 1; } static class Q extends R { } static class R extends Q { public static int m = 2; } function main() -> void { echo(P.n); }",
+            "abstract class A extends B { public constructor() -> A { } } abstract class B extends A { public constructor() -> B { } } function main() -> void { }",
+            "class A<T> extends B<T> { public T v; public constructor() -> A<T> { } } class B<T> extends A<T> { public T w; public constructor() -> B<T> { } } function main() -> void { }",
+            "static class S extends C { } class C extends D { public int f = 0; public constructor() -> C { } } class D extends C { public int f = 1; public constructor() -> D { } } function main() -> void { }",
             "function main() -> void { final int n = (-2147483647 - 1); int[n / -1] a; }",
             "function main() -> void { final int n = 1; int[n % 0] a; }",
             "@shots(99999999999) function main() -> void { }",
@@ -97,6 +110,12 @@ def nested(rng):
             "function main() -> void { bit x = 1b; x = " + "~" * 13000 + "x; }",
             "function main() -> void { int x = 1" + "+1" * 13000 + "; }",
             "function main() -> void { int x = 0; x = " + "x = " * 13000 + "1; }",
+            # depth that adds up across levels: 25 parentheses, each followed by a chain of 490 operators (24 KB, tree depth 12000)
+            "function main() -> void { int x = " + _paren_chain(25, 490) + "; int y = zz; }",
+            "function main() -> void { int x = f(" + _paren_chain(9, 490) + "); }",
+            # statements nested without any bracket: thousands of ternary statements
+            "function main() -> void { boolean x = true; " + "x ? " * 7000 + "y;" + " : x;" * 7000 + " }",
+            "function main() -> void { boolean x = true; " + "x ? x; : " * 7000 + "x; }",
             "function main() -> void { boolean b = " + "!" * 9000 + "true; }",
             "function main() -> void { int x = " + "-" * 700 + "1; }",
             "class Pair<A, B> { public constructor() -> Pair<A, B> { } }\nclass P<T> { public P<Pair<T, T>> f; public constructor() -> P<T> { } }\n"
